@@ -24,6 +24,26 @@ def _profile_functions(store):
   return prof
 
 
+_SNAP = {}
+
+
+def _restore_module_globals():
+  """every job starts from the module globals of scales / thrift.protocol as they were after import: a stub that
+  one job injected into a module (struct model, BytesIO, Deadline, random, ...) never leaks into the next job that
+  the same worker process runs"""
+  mods = [(n, m) for n, m in list(sys.modules.items()) if m is not None and (n == 'scales' or n.startswith('scales.') or n.startswith('thrift.protocol'))]
+  for n, m in mods:
+    cur = vars(m)
+    if n not in _SNAP:
+      _SNAP[n] = dict(cur); continue
+    snap = _SNAP[n]
+    for k in list(cur.keys()):
+      if k not in snap:
+        if not k.startswith('__'): del cur[k]
+      elif cur[k] is not snap[k]:
+        cur[k] = snap[k]
+
+
 def run_job(args):
   sys.unraisablehook = lambda *a: None
   modname, job, opts = args
@@ -34,6 +54,7 @@ def run_job(args):
     logging.disable(logging.CRITICAL)
     from symex import engine
     mod = importlib.import_module(modname)
+    _restore_module_globals()
     known = [k for k in load_known() if k.get('property') == mod.PROPERTY and k.get('status') == 'known']
     body = mod.make_body(job)
     funcs = set()
